@@ -17,11 +17,15 @@ RULE = ("call sequences of 1-14 steps drawn from an evolving fake kernel: 1-4 de
         "thread clears a cache or makes a nowrap=False call between the platform reads and the wrap steps; the platform read is replaced "
         "by a scripted kernel and is the pre-emption point; monotone and wrapping kernels) are replayed deterministically. Pre-emption "
         "part: a cache_clear() by a second thread at EVERY line of _WrapNumbers.run() of a call in flight (settrace), all points "
-        "enumerated per case, answers demanded to be those of one of the two orders of the two operations. Width part: "
+        "enumerated per case, answers demanded to be those of one of the two orders of the two operations. Exception part: an OSError "
+        "raised at EVERY line of run() of one call (direct API, then further polls; state and answers compared with the abort-point model), "
+        "and debug mode on with sys.stderr failing at its k-th write (ENOSPC/EPIPE/EIO/closed, every k) through the public functions. "
+        "Width part: "
         "tuples that shrink (answered) or grow (IndexError) under one name, judged against the total specification. Exhaustive part: all sequences over one device x 1 counter with readings "
         "{absent,0,1,2} and cache_clear. A case is non-trivial when it has at least two nowrap=True calls under one name; "
         "distinct = distinct canonical case hash.")
-TRUSTED = ["correspondence harness props/C10.py + pv/ (fake /proc/net/dev, /proc/diskstats, /sys/block through pv.shim, thread hand-off)",
+TRUSTED = ["source translator props/_c10_tables.py (ast dump of the commit sections of _WrapNumbers) and the list safe_ops of non-raising operations",
+           "correspondence harness props/C10.py + pv/ (fake /proc/net/dev, /proc/diskstats, /sys/block through pv.shim, thread hand-off)",
            "hand-written model coq/C10/Model.v of _WrapNumbers and the two callers (tied by the correspondence run only)",
            "the reading of the property text as the ghost specification coq/C10/Spec.v"]
 ASSUMPTIONS = ["run() and cache_clear() are atomic (they execute under _WrapNumbers.lock); a nowrap=True public call holds "
@@ -33,6 +37,9 @@ ASSUMPTIONS = ["run() and cache_clear() are atomic (they execute under _WrapNumb
                "direct API: what a call sequence does AFTER a caught IndexError (tuple longer than its predecessor) is outside the model "
                "(the reminders are then partially updated; witness in notes/design/C10.md); unreachable through the public functions",
                "cache_info() returns the live dicts, not copies; the observation is what they show at the call",
+               "exception-atomicity of run() rests on its commit section containing only operations that cannot raise (checked on the "
+               "source by the generated table); IndexError from a tuple longer than its predecessor and asynchronous exceptions "
+               "(KeyboardInterrupt, MemoryError) are outside the model",
                "the three dicts of _WrapNumbers are keyed by the same names (modelled as one map; checked on every cache_info())",
                "CPython dict/defaultdict/set/int semantics are modelled, not verified",
                "device present = key present in the dict passed under that name (alternating perdisk changes the key set: observation)"]
@@ -416,6 +423,62 @@ VANISH_LOWER = [
 ]
 
 
+SAFE_OPS = ["len", "range", "tuple", "set", ".keys", ".add", ".append", ".defaultdict", "._add_dict", "._remove_dead_reminders"]
+# = safe_ops of coq/C10/Spec.v (asserts before the first store of _add_dict are outside the commit section)
+
+
+def _gen_inject(rng):
+    """direct API: an exception injected at every line of run() of one call, then further polls.  The call has
+    wrapped, unwrapped, new and (at most one, with at most one offset) vanished keys, so that every update of
+    run() is an abort point and the order of the updates does not depend on set iteration."""
+    w = rng.choice([1, 2])
+    big = rng.choice([100, 1000, 2 ** 32])
+    t = lambda *v: [v[i % len(v)] for i in range(w)]
+    g0 = [big] + [3] * (w - 1)
+    g1 = [rng.randint(0, big - 1)] + [3] * (w - 1)          # the key that will vanish wrapped once, in field 0
+    a0, a1 = t(big, 7), t(rng.randint(1, big), 7)
+    pre = [["run", "n", [["a", a0], ["b", t(5)], ["gone", g0]], 0], ["run", "n", [["a", a1], ["b", t(6)], ["gone", g1]], 0]]
+    if rng.random() < 0.5:
+        pre.insert(1, ["run", "other", [["a", t(9)]], 0])
+    a2 = [rng.randint(0, a1[0])] + [rng.choice([0, 7, 8])] * (w - 1)
+    call = ["run", "n", [["b", t(rng.choice([2, 6, 9]))], ["a", a2], ["new", t(1)]], 0]
+    a3 = [rng.randint(0, a2[0] + 2)] + [8] * (w - 1)
+    post = [["run", "n", [["a", a3], ["b", t(6)], ["new", t(0)]], 0], ["run", "n", [["a", a3], ["gone", t(1)]], 0]]
+    if rng.random() < 0.4:
+        post += [["clear", "n", 0], ["run", "n", [["a", t(1)]], 0]]
+    return {"kind": "inject", "cls": "inject-wn", "pre": pre, "call": call, "post": post}
+
+
+INJECT = [
+    {"kind": "inject", "cls": "inject-wn", "pre": [["run", "n", [["a", [100]]], 0]], "call": ["run", "n", [["a", [10]]], 0],
+     "post": [["run", "n", [["a", [10]]], 0], ["run", "n", [["a", [20]]], 0]]},
+    {"kind": "inject", "cls": "inject-wn",
+     "pre": [["run", "n", [["a", [100, 5]], ["gone", [50, 1]]], 0], ["run", "n", [["a", [100, 6]], ["gone", [7, 1]]], 0]],
+     "call": ["run", "n", [["a", [30, 2]], ["x", [4, 4]]], 0],
+     "post": [["run", "n", [["a", [30, 2]], ["gone", [1, 1]]], 0], ["run", "n", [["a", [31, 1]], ["x", [0, 4]]], 0]]},
+]
+
+DBG = [
+    # debug mode on, sys.stderr failing at its k-th write: wraps, a vanishing device, further polls
+    {"kind": "dbg", "cls": "dbg-pub", "ops": [
+        ["call", "net", True, True, [["eth0", _net8(100)], ["lo", _net8(5)]], 0], ["call", "net", True, True, [["eth0", _net8(10)], ["lo", _net8(6)]], 0],
+        ["call", "net", True, True, [["eth0", _net8(10)]], 0], ["call", "net", True, True, [["eth0", _net8(20)]], 0],
+        ["call", "net", True, True, [["eth0", _net8(5)], ["lo", _net8(1)]], 0], ["call", "net", True, True, [["eth0", _net8(6)], ["lo", _net8(2)]], 0]]},
+    {"kind": "dbg", "cls": "dbg-pub", "ops": [
+        ["call", "disk", True, True, [["sda", [9, 8, 512, 1024, 5, 4, 3, 2, 1]], ["sdb", [5, 5, 512, 512, 5, 5, 5, 5, 5]]], 0],
+        ["call", "disk", True, True, [["sda", [1, 9, 0, 1024, 5, 4, 3, 2, 0]]], 0],
+        ["call", "disk", False, True, [["sda", [1, 9, 0, 1024, 5, 4, 3, 2, 0]]], 0],
+        ["call", "disk", True, True, [["sda", [0, 9, 0, 512, 5, 4, 3, 2, 0]], ["sdb", [1, 1, 0, 0, 1, 1, 1, 1, 1]]], 0],
+        ["call", "disk", True, True, [["sda", [0, 9, 0, 512, 5, 4, 3, 2, 0]], ["sdb", [1, 0, 0, 0, 1, 1, 1, 1, 1]]], 0]]},
+]
+
+
+def _gen_dbg(rng):
+    c = _gen_pub(rng)
+    ops = [o for o in c["ops"]][:6]
+    return {"kind": "dbg", "cls": "dbg-pub", "ops": ops}
+
+
 def _gen_preempt(rng, api):
     if api == "wn":
         k = Kernel(rng, rng.sample(WN_KEYS, rng.choice([2, 3])), rng.choice([1, 2]), False, p_vanish=0.3)
@@ -472,6 +535,11 @@ SCRIPTED = [
 ]
 
 
+def gen_tables(impl_dir, out_dir):
+    from props import _c10_tables
+    return _c10_tables.gen_tables(impl_dir, out_dir)
+
+
 def gen_cases(rng, tier):
     n = {"quick": 1, "thorough": 24, "search": 4}[tier]
     cases = []
@@ -479,6 +547,12 @@ def gen_cases(rng, tier):
         cases.extend(SCRIPTED)
         cases.extend(VANISH_LOWER)
         cases.extend(PREEMPT)
+        cases.extend(INJECT)
+        cases.extend(DBG)
+        for _ in range(3 * n):
+            cases.append(_gen_inject(rng))
+        for _ in range(2 * n):
+            cases.append(_gen_dbg(rng))
         for _ in range(2 * n):
             cases.append(_gen_preempt(rng, "wn"))
             cases.append(_gen_preempt(rng, "pub"))
@@ -533,18 +607,27 @@ def _preempt_orders(case):
 
 
 def _ops_of(case):
+    if case["kind"] == "inject":
+        return case["pre"] + [case["call"]] + case["post"]
     if case["kind"] == "preempt":
         return _preempt_orders(case)[0]
     return case["a"] + case["b"] if case["kind"] == "conc" else case["ops"]
 
 
 def _is_pub(case):
-    return case["kind"] == "pub" or (case["kind"] in ("conc", "preempt") and case["api"] == "pub")
+    return case["kind"] in ("pub", "dbg") or (case["kind"] in ("conc", "preempt") and case["api"] == "pub")
 
 
 def coq_term(case):
     if case["kind"] == "race":
         return "JL [%s; %s]" % (_race_term(case, False), _race_term(case, True))
+    if case["kind"] == "inject":
+        return "run_abort %s %s %s %s" % (G.lst([_wop(o) for o in case["pre"]]), G.by(case["call"][1]), _gdict(case["call"][2]),
+                                          G.lst([_wop(o) for o in case["post"]]))
+    if case["kind"] == "dbg":
+        ops = case["ops"]
+        seqs = [ops] + [ops[:j] + ops[j + 1:] for j in range(len(ops))]
+        return "JL [%s]" % "; ".join("run_pub %s %s" % (G.bo(LEGACY_EMPTY), G.lst([_pop(o) for o in q])) for q in seqs)
     if case["kind"] == "preempt":
         if case["api"] == "pub":
             return "JL [%s]" % "; ".join("run_pub %s %s" % (G.bo(LEGACY_EMPTY), G.lst([_pop(o) for o in ops])) for ops in _preempt_orders(case))
@@ -571,6 +654,13 @@ def _canon_info(info):
 
 
 def coq_struct(case, raw):
+    if case["kind"] == "inject":
+        # raw = [[state, answers to the follow-up calls] per abort point, demanded without the call, demanded with it]
+        pts = [[_canon_info(T("Val", st)), post] for st, post in raw[0]]
+        return {"model": pts, "spec": {"excluded": raw[1], "included": raw[2]}}
+    if case["kind"] == "dbg":
+        # raw[0] = all calls, raw[1 + j] = without call j;  [model trace, spec trace]
+        return {"model": raw[0][0], "spec": {"full": raw[0][1], "without": [r[1] for r in raw[1:]]}}
     if case["kind"] == "preempt":
         # raw[0] = the call takes effect before the clear, raw[1] = after it; [model trace, spec trace, ...]
         return {"model": {"call-first": raw[0][0], "clear-first": raw[1][0]},
@@ -608,6 +698,53 @@ def judge(case, coq, impl):
     from pv.core import Verdict
     if isinstance(impl, dict) and impl.get("t") == "Skip":
         return Verdict("skip", str(impl.get("a")))
+    if case["kind"] == "inject":
+        if not isinstance(impl, list) or not impl:
+            return Verdict("corr", "no line of _WrapNumbers.run() was reached: %r" % (impl,))
+        npre = len(case["pre"])
+        sp = coq["spec"]
+        unmodelled = None
+        for tag, pre, call, state, post in impl:
+            k, func, rel, src, calls = tag["a"]
+            unsafe = [c for c in calls if c not in SAFE_OPS]
+            if unsafe and sp["excluded"] is not None:
+                # this line contains an operation that can really raise: the failed call must then leave the state
+                # untouched or fully updated -- the following answers are the demanded ones either way
+                got = pre + post
+                incl = sp["included"][:npre] + sp["included"][npre + 1:]
+                if got != sp["excluded"] and got != incl:
+                    j = next((i for i, (a, b) in enumerate(zip(got, sp["excluded"])) if a != b), 0)
+                    return Verdict("violation", "an exception raised by %s at %s line +%d (`%s`) leaves the offsets updated without the snapshot "
+                                   "stored: answer %d after it is %s, demanded %s" % (unsafe, func, rel, src, j, got[j] if j < len(got) else None,
+                                                                                   sp["excluded"][j] if j < len(sp["excluded"]) else None))
+            if [state, post] not in coq["model"]:
+                unmodelled = (k, func, rel, src)
+        if unmodelled is not None:
+            return Verdict("corr", "abort at point %s (%s line +%s `%s`): the state left behind / the follow-up answers are not those of any "
+                           "abort point of the model" % unmodelled)
+        return Verdict("ok")
+    if case["kind"] == "dbg":
+        if not isinstance(impl, list) or not impl:
+            return Verdict("corr", "no debug-mode run")
+        sp = coq["spec"]
+        for tag, trace in impl:
+            failed = [j for j, a in enumerate(trace) if isinstance(a, dict) and a.get("t") == "Exc"]
+            if sp["full"] is None:
+                continue
+            if not failed:
+                ok = trace == sp["full"]
+                why = "debug mode, no failing write"
+            elif len(failed) == 1:
+                j = failed[0]
+                rest = trace[:j] + trace[j + 1:]
+                ok = rest == sp["full"][:j] + sp["full"][j + 1:] or rest == sp["without"][j]
+                why = "debug mode, stderr write %s failed (%s) inside call %d" % (tag["a"][0], tag["a"][1], j)
+            else:
+                ok, why = False, "one failing stderr write made %d calls fail" % len(failed)
+            if not ok:
+                return Verdict("violation", "%s: the answers of the other calls are the demanded ones neither with nor without the failed call: %s"
+                               % (why, trace))
+        return Verdict("ok")
     if case["kind"] == "preempt":
         if not isinstance(impl, list) or not impl:
             return Verdict("corr", "no pre-emption point inside _WrapNumbers.run() was reached: %r" % (impl,))
@@ -904,6 +1041,66 @@ def _run_race(psutil, case):
     return [T("Realised", "other: %r" % (real,)), answers]
 
 
+def _run_inject(psutil, root, case):
+    import errno
+    import linecache
+    from props import _c10_sched as S
+    from props import _c10_tables as TB
+    wn = psutil._common.wrap_numbers
+    path = psutil._common.__file__
+    by_line = TB.calls_by_line(path)
+    first = {name: fn.lineno for name, fn in TB.wrap_functions(path).items()}
+    out = []
+    for k in range(MAXPOINTS):
+        wn.cache_clear()
+        pre = [_do_wn(psutil, root, o) for o in case["pre"]]
+        r = S.run_with_injection(lambda: _do_wn(psutil, root, case["call"]), k, OSError(errno.ENOSPC, "No space left on device"))
+        if not r["reached"]:
+            break
+        state = _info(psutil)
+        post = []
+        for o in case["post"]:          # like the model's trace: ends at the first exception
+            post.append(_do_wn(psutil, root, o))
+            if _stopped(post[-1]):
+                break
+        calls = list(by_line.get(r["lineno"], (None, []))[1])
+        out.append([T("Point", k, r["func"], r["lineno"] - first.get(r["func"], 0), linecache.getline(path, r["lineno"]).strip()[:60], calls),
+                    pre, r["call"], state, post])
+    return out
+
+
+def _run_dbg(psutil, root, case):
+    import errno
+    import sys
+    from props import _c10_sched as S
+    wn = psutil._common.wrap_numbers
+    excs = [("ENOSPC", lambda: OSError(errno.ENOSPC, "No space left on device")), ("EPIPE", lambda: BrokenPipeError(errno.EPIPE, "Broken pipe")),
+            ("EIO", lambda: OSError(errno.EIO, "Input/output error")), ("closed", lambda: ValueError("I/O operation on closed file"))]
+    out = []
+    real = sys.stderr
+    psutil._set_debug(True)
+    try:
+        nwrites = None
+        k = -1
+        while k < (nwrites if nwrites is not None else 0) and k < MAXPOINTS:
+            name, mk = excs[k % 4] if k >= 0 else ("none", lambda: None)
+            stream = S.FailingStream(k, mk())
+            wn.cache_clear()
+            sys.stderr = stream
+            try:
+                trace = [_do_pub(psutil, root, o) for o in case["ops"]]
+            finally:
+                sys.stderr = real
+            if nwrites is None:
+                nwrites = stream.n
+            out.append([T("Write", k, name, stream.n), trace])
+            k += 1
+    finally:
+        sys.stderr = real
+        psutil._set_debug(False)
+    return out
+
+
 def _run_preempt(psutil, root, case):
     from props import _c10_sched as S
     do = _do_pub if case["api"] == "pub" else _do_wn
@@ -942,6 +1139,10 @@ def impl_run(case, coq, env):
             return _run_race(psutil, case)
         if case["kind"] == "preempt":
             return _run_preempt(psutil, root, case)
+        if case["kind"] == "inject":
+            return _run_inject(psutil, root, case)
+        if case["kind"] == "dbg":
+            return _run_dbg(psutil, root, case)
         do = _do_pub if _is_pub(case) else _do_wn
         if case["kind"] == "conc":
             res = {0: [], 1: []}
@@ -1001,7 +1202,10 @@ MANIFEST = {
             "(direct API and public API over generated /proc/net/dev, /proc/diskstats) on generated and exhaustively enumerated sequences, on "
             "two scripted alternating threads, two free-running threads, three real threads with a pre-empting scripted platform read, "
             "and a clearing thread released at every line of _WrapNumbers.run() of a call in flight (the atomicity the model assumes), "
-            "comparing every answer and cache_info().",
+            "comparing every answer and cache_info(). Exception-atomicity: run() is modelled as a sequence of state updates with a possible "
+            "abort after each; the first abort point is the untouched state, the last the completed call, the ones in between are refuted "
+            "with a witness (a wrap counted twice), and the source's commit sections are proved (generated table, ast) to contain only "
+            "operations that cannot raise; exceptions injected at every line of run() and a failing sys.stderr in debug mode tie this to the code.",
     "note": "Trusted: Coq kernel + vm_compute; hand-written model coq/C10/Model.v (tied by the correspondence run only); the ghost "
             "specification coq/C10/Spec.v and the linearisation reading of concurrent executions; harness; CPython builtins and threading.Lock. "
             "Atomicity of run()/cache_clear() and of read+wrap under _nowrap_lock is an assumption of the model (the locks), exercised but "
